@@ -65,8 +65,8 @@ def check_obs(g, hist, obs, viol):
                 if shows_spanning:
                     key = [pb[l][r] for l in range(L)]
                     for l in range(L):
-                        if key[l] == -1:
-                            continue
+                        if key[l] == -1 or key[l] is None:
+                            continue  # a divider / null group has no heading of its own
                         if seen[l] != key[l]:
                             viol.append({"klass": None, "sig": f"heading-{'missing' if seen[l] is None else 'wrong'}",
                                          "detail": f"page {pi + 1}: data row {r} has level-{l + 1} value G{l}v{key[l]} but the heading in force on this page is "
@@ -158,12 +158,17 @@ def gammas(run):
                         out.append(({"strategy": "page_by", "L": 1, "nrow": nrow, "header": hm, "new_page": np_, "pageby_row": pr,
                                      "pageby_header": pbh, "heights": [1, 2]}, 5, True))
     out.append(({"strategy": "page_by", "L": 1, "nrow": 4, "header": "explicit", "new_page": True, "pageby_row": "column", "heights": [1]}, 5, False))
+    # null group values next to real ones (a null group has no heading; the group AFTER it needs its own)
+    for nrow in ((6, 12) if quick else (4, 6, 8, 12)):
+        out.append(({"strategy": "page_by", "L": 1, "nrow": nrow, "header": "explicit", "nulls": True, "heights": [1]}, 5, False))
+        out.append(({"strategy": "page_by", "L": 2, "nrow": nrow + 2, "header": "explicit", "nulls": True, "heights": [1]}, 4, False))
     # integer group values (0 is falsy) and values that recur non-adjacently (A, B, A)
-    for nrow in ((5, 8, 12) if quick else (4, 5, 6, 8, 12, 16)):
+    for nrow in ((5, 8, 12) if quick else (4, 5, 6, 8, 12)):
         # integer values; with recurrence the falsy value 0 also starts a group in the middle of a page
         out.append(({"strategy": "page_by", "L": 1, "nrow": nrow, "header": "explicit", "numeric_groups": True, "recur": True, "heights": [1]}, 5, False))
         out.append(({"strategy": "page_by", "L": 1, "nrow": nrow, "header": "explicit", "recur": True, "heights": [1]}, 5, False))
-    for L, nrows, depth in ((2, (4, 6, 10) if quick else (4, 5, 6, 8, 12, 16), 4 if quick else 5), (3, (6, 12) if quick else (5, 6, 8, 14), 4)):
+    # (thorough sizes follow the budget: the first two thorough runs were cut at 3600 s with 730 k and 320 k documents)
+    for L, nrows, depth in ((2, (4, 6, 10) if quick else (4, 6, 8, 12), 4 if quick else 5), (3, (6, 12) if quick else (6, 8, 12), 4)):
         for nrow in nrows:
             for hm in (("explicit",) if quick else ("none", "explicit")):
                 for rep in (True, False):
@@ -174,7 +179,7 @@ def gammas(run):
     for nrow in ((4, 6) if quick else (3, 4, 5, 6, 8)):
         out.append(({"strategy": "page_by", "L": 2, "nrow": nrow, "header": "explicit", "new_page": True, "pageby_row": "first_row", "heights": [1]},
                     4 if quick else 5, False))
-    for nrow in ((3, 5) if quick else (3, 4, 5, 6, 8, 12)):
+    for nrow in ((3, 5) if quick else (3, 4, 5, 6, 8)):
         for L in (1, 2):
             out.append(({"strategy": "subline", "L": L, "nrow": nrow, "header": "explicit", "heights": [1, 2] if L == 1 else [1]}, 5 if L == 1 else 4, False))
         out.append(({"strategy": "subline+page_by", "L": 1, "nrow": nrow + 1, "header": "explicit", "heights": [1]}, 5, False))
@@ -184,7 +189,8 @@ def gammas(run):
 def run_length_cases(g, quick):
     gn = P.norm_gamma(g)
     K = gn["nrow"]
-    lens = sorted({1, 2, max(1, K - 2), K - 1, K, K + 1}) if quick else list(range(1, K + 3))
+    # run lengths around the page capacity (thorough: plus 3 and K+2; every length 1..K+2 cubed was 412 k long documents - beyond the budget)
+    lens = sorted({1, 2, max(1, K - 2), K - 1, K, K + 1}) if quick else sorted({1, 2, 3, max(1, K - 2), K - 1, K, K + 1, K + 2})
     lens = [x for x in lens if x >= 1]
     L = gn["L"]
     hists = []
